@@ -326,10 +326,10 @@ pub fn back_oracle(c: &Back) -> Verdict {
 
 pub fn subs() -> Vec<Box<dyn DynSub>> {
     vec![
-        sub(Sub { name: "c19.format", source: Source::Gen(fmt_strategy, 300_000, 15_000_000), oracle: fmt_oracle, known: no_known, hang_is_violation: false }),
-        sub(Sub { name: "c19.to_time_scale", source: Source::Gen(tots_strategy, 60_000, 2_000_000), oracle: tots_oracle, known: no_known, hang_is_violation: false }),
-        sub(Sub { name: "c19.constants", source: Source::Gen(const_strategy, 150_000, 5_000_000), oracle: const_oracle, known: no_known, hang_is_violation: false }),
-        sub(Sub { name: "c19.parse_back", source: Source::Gen(back_strategy, 150_000, 5_000_000), oracle: back_oracle, known: no_known, hang_is_violation: false }),
+        sub(Sub { name: "c19.format", source: Source::Gen(fmt_strategy, 1_200_000, 15_000_000), oracle: fmt_oracle, known: no_known, hang_is_violation: false }),
+        sub(Sub { name: "c19.to_time_scale", source: Source::Gen(tots_strategy, 240_000, 2_000_000), oracle: tots_oracle, known: no_known, hang_is_violation: false }),
+        sub(Sub { name: "c19.constants", source: Source::Gen(const_strategy, 600_000, 5_000_000), oracle: const_oracle, known: no_known, hang_is_violation: false }),
+        sub(Sub { name: "c19.parse_back", source: Source::Gen(back_strategy, 600_000, 5_000_000), oracle: back_oracle, known: no_known, hang_is_violation: false }),
         crate::props::fuzzsub::c19_fuzz(),
     ]
 }
